@@ -37,9 +37,9 @@ git -C /repo status --short | head -3
 echo "fired:$fired"
 first=$(grep -h -m1 -A1 '^VIOLATION' $out/$prop.log | tail -1 | cut -c1-400)
 echo "target $prop: $first"
-/venv/bin/python - "$id" "$prop" "$suite" "$rc_mut" "$rc_orig" "$fired" "$first" <<'PY'
+/venv/bin/python - "$id" "$prop" "$suite" "$rc_mut" "$rc_orig" "$fired" "$first" "$checks" <<'PY'
 import json, sys
-id_, prop, suite, rc_mut, rc_orig, fired, first = sys.argv[1:8]
+id_, prop, suite, rc_mut, rc_orig, fired, first, checks = sys.argv[1:9]
 meta = {
  "id": id_, "breaks_property": prop,
  "needs_to_manifest": "see MUTATION.md",
@@ -47,7 +47,8 @@ meta = {
    "suite_with_change": suite.strip(),
    "demo_exit_with_change": int(rc_mut), "demo_exit_without_change": int(rc_orig),
    "how": "fresh scratch worktree of /repo HEAD under /tmp/vfy, patch.diff applied, full suite with pytest -n 8, demo.py run with and without the change, worktree removed"},
- "checks_run": "all 19 quick checks against /repo with patch.diff applied (git -C /repo apply), then git -C /repo checkout -- .",
+ "checks_run": ("quick checks " + " ".join(checks.split()) + " (all 19)" * (len(checks.split()) == 19)
+                + " against /repo with patch.diff applied (git -C /repo apply), then git -C /repo checkout -- ."),
  "checks_fired": fired.split(),
  "target_check_detail": first.strip(),
 }
